@@ -51,7 +51,58 @@ def _eq(a, b):
     return a == b
 
 
+NEG = {">=": "<", ">": "<=", "!=": "=="}
+
+
+def canon(n):
+    """Behaviour-preserving normal form of control-flow idioms, applied to pattern and subject alike:
+    `if !c {a} else {b}` -> `if c {b} else {a}`; `if x >= y {a} else {b}` -> `if x < y {b} else {a}` (same for > and !=);
+    a two-arm `match e { Some(p) => a, None => b }` (Ok/Err likewise, `_` as the second arm) -> `if let Some(p) = e {a} else {b}`."""
+    if not isinstance(n, dict):
+        return n
+    t = n.get("t")
+    if t == "If" and n.get("else") is not None:
+        c = n["cond"]
+        while isinstance(c, dict) and c.get("t") == "Paren":
+            c = c["expr"]
+        els = n["else"]
+        els_block = els["block"] if isinstance(els, dict) and els.get("t") == "BlockExpr" else None
+        if els_block is not None:
+            if c.get("t") == "Unary" and c.get("op") == "!":
+                return canon({**n, "cond": c["expr"], "then": els_block, "else": {"t": "BlockExpr", "block": n["then"], "label": None, "sp": n["then"]["sp"]}})
+            if c.get("t") == "Binary" and c.get("op") in NEG:
+                c2 = {**c, "op": NEG[c["op"]]}
+                return canon({**n, "cond": c2, "then": els_block, "else": {"t": "BlockExpr", "block": n["then"], "label": None, "sp": n["then"]["sp"]}})
+    if t == "Match" and len(n.get("arms", [])) == 2 and all(a.get("guard") is None for a in n["arms"]):
+        a0, a1 = n["arms"]
+
+        def kind(a):
+            p = a["pat"]
+            if p["t"] == "PTupleStruct" and p["path"]["name"] in ("Some", "Ok", "Option::Some", "Result::Ok") and len(p["elems"]) == 1:
+                return "pos"
+            if p["t"] == "PIdent" and p["name"] == "None" or p["t"] == "PPath" and p["path"]["name"] in ("None", "Option::None") or p["t"] == "PWild":
+                return "neg"
+            if p["t"] == "PTupleStruct" and p["path"]["name"] in ("Err", "Result::Err") and len(p["elems"]) == 1 and p["elems"][0]["t"] == "PWild":
+                return "neg"
+            return None
+        k0, k1 = kind(a0), kind(a1)
+        if {k0, k1} == {"pos", "neg"}:
+            pos, neg = (a0, a1) if k0 == "pos" else (a1, a0)
+
+            def blk(e):
+                if isinstance(e, dict) and e.get("t") == "BlockExpr":
+                    return e["block"]
+                return {"t": "Block", "sp": e["sp"], "stmts": [{"t": "ExprStmt", "sp": e["sp"], "expr": e, "semi": False}]}
+            return {"t": "If", "sp": n["sp"], "cond": {"t": "Let", "sp": n["sp"], "pat": pos["pat"], "expr": n["expr"]},
+                    "then": blk(pos["body"]), "else": {"t": "BlockExpr", "block": blk(neg["body"]), "label": None, "sp": neg["body"]["sp"]}}
+    return n
+
+
 def _m(p, n, env):
+    if isinstance(p, dict) and p.get("t") in ("If", "Match"):
+        p = canon(p)
+    if isinstance(n, dict) and n.get("t") in ("If", "Match"):
+        n = canon(n)
     if isinstance(p, dict):
         pid = _ident(p)
         if pid and pid.startswith("__v_"):
@@ -154,4 +205,173 @@ def find_expr(root, pattern, env=None):
             e = dict(env or {})
             if _m(pat, n, e):
                 out.append((n, e))
+    return out
+
+
+# --------------------------------------------------------------------------- behaviour-preserving normalisations
+
+import copy as _copy
+
+
+def _subst(node, mapping):
+    """Copy of node with single-segment path expressions renamed/replaced per mapping {name: expr node}."""
+    if isinstance(node, dict):
+        nid = _ident(node)
+        if nid is not None and nid in mapping:
+            return mapping[nid]
+        return {k: (_subst(v, mapping) if isinstance(v, (dict, list)) else v) for k, v in node.items()}
+    if isinstance(node, list):
+        return [_subst(x, mapping) for x in node]
+    return node
+
+
+def _simple_arg(a):
+    a0 = a
+    while isinstance(a0, dict) and a0.get("t") in ("Paren", "Reference"):
+        a0 = a0["expr"]
+    return isinstance(a0, dict) and (a0.get("t") in ("Lit",) or _ident(a0) is not None)
+
+
+def _has(node, kinds):
+    from common import walk
+    return any(n.get("t") in kinds for n in walk(node))
+
+
+def local_fns(ast, path):
+    """name -> fn node for the free functions and inherent/associated fns of a file (candidates for inlining)."""
+    out = {}
+    for f in ast.find_fns(path):
+        if f["node"].get("body") is not None and "mod tests" not in f["container"]:
+            out.setdefault(f["name"], []).append(f["node"])
+    return {k: v[0] for k, v in out.items() if len(v) == 1}
+
+
+def _callee_name(e):
+    """Name of a locally-resolvable callee: `f(..)`, `f::<T>(..)`, `Self::f(..)`."""
+    if not isinstance(e, dict) or e.get("t") != "Call":
+        return None
+    f = e["func"]
+    while isinstance(f, dict) and f.get("t") == "Paren":
+        f = f["expr"]
+    if f.get("t") != "PathExpr":
+        return None
+    segs = f["path"]["segs"]
+    if len(segs) == 1:
+        return segs[0]["id"]
+    if len(segs) == 2 and segs[0]["id"] == "Self":
+        return segs[1]["id"]
+    return None
+
+
+def inline_helpers(ast, path, node, depth=2, exprs=False, keep=()):
+    """Copy of `node` in which calls to small local helper functions are replaced by their bodies:
+    statement-position calls of helpers without tail value (statements spliced), and calls of helpers whose body is one
+    expression (substituted).  Helpers containing `return`, `?`, loops over their own recursion or non-trivial argument
+    expressions are left alone.  Spans of the inlined statements are the helper's own."""
+    fns = local_fns(ast, path)
+
+    def params(fn):
+        ps = []
+        for p in fn["sig"]["inputs"]:
+            if p["t"] != "Arg" or p["pat"]["t"] != "PIdent":
+                return None
+            ps.append(p["pat"]["name"])
+        return ps
+
+    def try_expr(e):
+        name = _callee_name(e)
+        if name is None or name not in fns:
+            return None
+        fn = fns[name]
+        ps = params(fn)
+        st = fn["body"]["stmts"]
+        if ps is None or len(ps) != len(e["args"]) or not all(_simple_arg(a) for a in e["args"]):
+            return None
+        if len(st) == 1 and st[0]["t"] == "ExprStmt" and not st[0]["semi"] and not _has(st[0], ("Return", "Try")):
+            return _subst(st[0]["expr"], dict(zip(ps, e["args"])))
+        return None
+
+    def try_stmts(e):
+        name = _callee_name(e)
+        if name is None or name not in fns:
+            return None
+        fn = fns[name]
+        ps = params(fn)
+        st = fn["body"]["stmts"]
+        if ps is None or len(ps) != len(e["args"]) or not all(_simple_arg(a) for a in e["args"]):
+            return None
+        if fn["sig"]["output"] is not None or _has(fn["body"], ("Return", "Try")):
+            return None
+        if st and st[-1]["t"] == "ExprStmt" and not st[-1]["semi"] and st[-1]["expr"].get("t") not in ("If", "Match", "While", "ForLoop", "Loop", "Unsafe", "BlockExpr"):
+            return None
+        return _subst(st, dict(zip(ps, e["args"])))
+
+    def rec(n, d):
+        if isinstance(n, list):
+            return [rec(x, d) for x in n]
+        if not isinstance(n, dict):
+            return n
+        if n.get("t") == "Block":
+            out = []
+            for s_ in n["stmts"]:
+                if d > 0 and s_["t"] == "ExprStmt":
+                    e = s_["expr"]
+                    while isinstance(e, dict) and e.get("t") in ("Paren", "Unsafe") and False:
+                        e = e
+                    sp = try_stmts(e) if _callee_name(e) not in keep else None
+                    if sp is not None:
+                        out.extend(rec(sp, d - 1))
+                        continue
+                out.append(rec(s_, d))
+            return {**n, "stmts": out}
+        if exprs and n.get("t") == "Call" and d > 0 and _callee_name(n) not in keep:
+            r = try_expr(n)
+            if r is not None:
+                return rec(r, d - 1)
+        return {k: (rec(v, d) if isinstance(v, (dict, list)) else v) for k, v in n.items()}
+    return rec(node, depth)
+
+
+PURE_METHODS = ("len", "wrapping_add_signed", "wrapping_add", "wrapping_sub", "as_ptr", "is_empty", "min", "max")
+
+
+def _pure(e):
+    if not isinstance(e, dict):
+        return False
+    t = e.get("t")
+    if t in ("Lit", "PathExpr"):
+        return True
+    if t in ("Paren", "Cast", "Unary", "Reference"):
+        return _pure(e["expr"]) and not (t == "Unary" and e["op"] == "*")
+    if t == "Field":
+        return _pure(e["base"])
+    if t == "Index":
+        return _pure(e["expr"]) and _pure(e["index"])
+    if t == "Binary":
+        return e["op"] in ("+", "-", "*", "/", "<", "<=", ">", ">=", "==", "!=", "&", "|") and _pure(e["left"]) and _pure(e["right"])
+    if t == "MethodCall":
+        return e["method"] in PURE_METHODS and _pure(e["receiver"]) and all(_pure(a) for a in e["args"])
+    return False
+
+
+def inline_pure_lets(stmts):
+    """`let x = <pure expr>; ..uses of x..` -> uses replaced by the expression (immutable, non-shadowed bindings only)."""
+    from common import walk
+    out = []
+    i = 0
+    stmts = list(stmts)
+    while i < len(stmts):
+        s_ = stmts[i]
+        if s_["t"] == "Local" and s_["pat"]["t"] == "PIdent" and not s_["pat"]["mut"] and not s_["pat"]["by_ref"] and s_["init"] is not None \
+                and s_.get("else") is None and _pure(s_["init"]):
+            name = s_["pat"]["name"]
+            rest = stmts[i + 1:]
+            rebound = any(n.get("t") == "PIdent" and n["name"] == name for r in rest for n in walk(r))
+            assigned = any(n.get("t") in ("Assign",) and _ident(n["left"]) == name for r in rest for n in walk(r))
+            if not rebound and not assigned:
+                stmts = stmts[:i + 1] + _subst(rest, {name: {"t": "Paren", "sp": s_["init"]["sp"], "expr": s_["init"]}})
+                i += 1
+                continue
+        out.append(s_)
+        i += 1
     return out
